@@ -245,7 +245,7 @@ func (f *Frame) builtin(ns *nodeState, x *ssa.Call, name string, args []Val) []V
 		t := ex.viewOf(ns.st, args[0])
 		switch t.Sort.Role {
 		case "slice", "map":
-			return []Val{{T: FieldOf(t, 2)}}
+			return []Val{{T: lenOf(t)}}
 		}
 		if t.Sort.Kind == KString {
 			vc.DeclareFun("str_len", []*Sort{SStr}, SInt)
@@ -263,25 +263,25 @@ func (f *Frame) builtin(ns *nodeState, x *ssa.Call, name string, args []Val) []V
 		if t.Sort.Kind == KString {
 			ex.fail("append of string")
 		}
-		arr, off, ln := FieldOf(s, 0), FieldOf(s, 1), FieldOf(s, 2)
-		tl := FieldOf(t, 2)
+		arr, ln := slArr(s), slLen(s)
+		tl := slLen(t)
 		if tl.K != nil && tl.K.Int64() <= 8 {
 			n := int(tl.K.Int64())
 			for i := 0; i < n; i++ {
-				el := Select(FieldOf(t, 0), addT(FieldOf(t, 1), IntLit64(int64(i), SInt)))
-				arr = Store(arr, addT(addT(off, ln), IntLit64(int64(i), SInt)), el)
+				el := Select(slArr(t), IntLit64(int64(i), SInt))
+				arr = Store(arr, addT(ln, IntLit64(int64(i), SInt)), el)
 			}
-			return []Val{{T: vc.Define(f.prefix+x.Name(), MkData(s.Sort, arr, off, addT(ln, tl), TFalse))}}
+			return []Val{{T: vc.Define(f.prefix+x.Name(), MkData(s.Sort, arr, addT(ln, tl), TFalse))}}
 		}
 		// general case: fresh array with target-index axioms
 		na := vc.Declare(f.prefix+x.Name()+"_arr", arr.Sort)
 		j := Atom("q_j", SInt)
-		end := addT(off, ln)
-		ax1 := Implies(And(leT(off, j), ltT(j, end)), Eq(Select(na, j), Select(arr, j)))
-		ax2 := Implies(And(leT(end, j), ltT(j, addT(end, tl))), Eq(Select(na, j), Select(FieldOf(t, 0), addT(FieldOf(t, 1), subT(j, end)))))
+		end := ln
+		ax1 := Implies(And(leT(IntLit64(0, SInt), j), ltT(j, end)), Eq(Select(na, j), Select(arr, j)))
+		ax2 := Implies(And(leT(end, j), ltT(j, addT(end, tl))), Eq(Select(na, j), Select(slArr(t), subT(j, end))))
 		vc.Assume(Term{S: fmt.Sprintf("(forall ((q_j Int)) (and %s %s))", ax1.S, ax2.S), Sort: SBool}, "append: contents of the result")
-		isNil := And(FieldOf(s, 3), Eq(tl, IntLit64(0, SInt)))
-		return []Val{{T: vc.Define(f.prefix+x.Name(), MkData(s.Sort, na, off, addT(ln, tl), isNil))}}
+		isNil := And(slNil(s), Eq(tl, IntLit64(0, SInt)))
+		return []Val{{T: vc.Define(f.prefix+x.Name(), MkData(s.Sort, na, addT(ln, tl), isNil))}}
 	case "delete":
 		mv := args[0]
 		if mv.Origin == nil {
@@ -317,13 +317,12 @@ func (f *Frame) builtin(ns *nodeState, x *ssa.Call, name string, args []Val) []V
 		}
 		d := ex.viewOf(ns.st, dst)
 		s := ex.viewOf(ns.st, src)
-		n := Ite(leT(FieldOf(d, 2), FieldOf(s, 2)), FieldOf(d, 2), FieldOf(s, 2))
+		n := Ite(leT(slLen(d), slLen(s)), slLen(d), slLen(s))
 		n = vc.Define(f.prefix+x.Name()+"_n", n)
 		na := vc.Declare(f.prefix+x.Name()+"_arr", FieldOf(d, 0).Sort)
 		j := Atom("q_j", SInt)
-		doff := FieldOf(d, 1)
-		in := And(leT(doff, j), ltT(j, addT(doff, n)))
-		ax := Ite(in, Eq(Select(na, j), Select(FieldOf(s, 0), addT(FieldOf(s, 1), subT(j, doff)))), Eq(Select(na, j), Select(FieldOf(d, 0), j)))
+		in := And(leT(IntLit64(0, SInt), j), ltT(j, n))
+		ax := Ite(in, Eq(Select(na, j), Select(slArr(s), j)), Eq(Select(na, j), Select(slArr(d), j)))
 		vc.Assume(Term{S: fmt.Sprintf("(forall ((q_j Int)) %s)", ax.S), Sort: SBool}, "copy: contents of the destination")
 		ex.storeLV(ns.st, dst.Origin, WithField(d, 0, na))
 		return []Val{{T: n}}
@@ -417,6 +416,8 @@ func init() {
 		ex.vc.assumeNote("math.Log2: exact on 2^k (k<=40), floor(log2) bracketed otherwise (float rounding not modelled)")
 		return []Val{{T: r}}
 	}
+	identity := func(f *Frame, ns *nodeState, x *ssa.Call, fn *ssa.Function, args []Val) []Val { return []Val{args[0]} }
+	externals["(github.com/go-spatial/geom.Polygon).LinearRings"] = identity
 	externals["math.Abs"] = func(f *Frame, ns *nodeState, x *ssa.Call, fn *ssa.Function, args []Val) []Val {
 		a := args[0].T
 		return []Val{{T: Ite(leT(IntLit64(0, SReal), a), a, App(SReal, "-", a))}}
